@@ -71,6 +71,33 @@ def hd_syms(f, header):
     return ptrs, ints
 
 
+def data_loops(f, ps):
+    """heads of the loops whose trip count depends on the data length, in program order (a bulk loop processing several
+    words per iteration may precede the word loop)"""
+    heads = []
+    entry = [p for p in ps if p.end[0] == "loop-entry" and p.blocks and p.blocks[0] == 0]
+    if not entry:
+        raise Broken("%s: no path from the function entry reaches a data loop: unrecognised shape" % f.name)
+    cur = entry[0].end[1]
+    while cur is not None and cur not in heads:
+        heads.append(cur)
+        nxt = {p.end[1] for p in ps if p.end[0] == "loop-entry" and p.blocks and p.blocks[0] == cur and p.end[1] != cur}
+        if len(nxt) > 1:
+            raise Broken("%s: a data loop is followed by %d alternative loops: unrecognised shape" % (f.name, len(nxt)))
+        cur = next(iter(nxt)) if nxt else None
+    allh = {p.end[1] for p in ps if p.end[0] in ("loop-entry", "backedge")}
+    if allh != set(heads) or any(p.end[1] != entry[0].end[1] for p in entry):
+        raise Broken("%s: the loops that depend on the data length do not form one chain from the function entry (%d found, %d chained): unrecognised shape" % (f.name, len(allh), len(heads)))
+    return heads
+
+
+def word_steps(r):
+    """the 4-byte steps of a segment of r bytes (r < 4: one partial step)"""
+    if r < 4:
+        return [(0, r)] if r else []
+    return [(4 * k, 4) for k in range(r // 4)]
+
+
 def main_loop(f, ps):
     """the data loop: the only loop the path executor could not simply follow (its trip count depends on the message length);
     helper loops with a trip count decided by the path (copying the 1..3 left-over bytes ...) are followed and do not count"""
@@ -267,11 +294,17 @@ def check_cipher(ck, mod, f, label, rulemap):
     ex, ps = run_paths(f, klen)
     if narrowings(c, f, ps):
         return 1
-    hdr = main_loop(f, ps)
-    ptrs, ints = hd_syms(f, hdr)
-    if len(ptrs) > 2 or len(ints) != 1:
-        raise Broken("%s: expected at most two cursors and one remaining length at the loop head (found %d, %d)" % (f.name, len(ptrs), len(ints)))
-    rem = ("hd", ints[0].id)
+    heads = data_loops(f, ps)
+    LI = {}
+    for h_ in heads:
+        pt_, in_ = hd_syms(f, h_)
+        if len(pt_) > 2 or len(in_) != 1 or not pt_:
+            raise Broken("%s: expected one or two pointer cursors and one remaining length carried by the data loop (found %d pointer, %d integer values): index-based or otherwise "
+                         "unrecognised loop shape" % (f.name, len(pt_), len(in_)))
+        LI[h_] = {"ptrs": pt_, "ints": in_, "rem": ("hd", in_[0].id), "in": None, "out": None}
+    hdr = heads[0]
+    ptrs, ints = LI[hdr]["ptrs"], LI[hdr]["ints"]
+    rem = LI[hdr]["rem"]
     A = {nm: irx.argsym(f, f.param_index(nm)) for nm in ("c", "m", "ad", "npub", "k", "clen", "mlen", "adlen")}
     enc = direction == "encrypt"
     in_name, out_name, len_name = ("m", "c", "mlen") if enc else ("c", "m", "clen")
@@ -292,6 +325,8 @@ def check_cipher(ck, mod, f, label, rulemap):
             n += 1
             continue
         # ------------------------------------------------------------ prefix
+        if p.end[0] == "loop-entry" and p.blocks and p.blocks[0] != 0:
+            continue        # hand-over from one data loop to the next: below
         if p.end[0] == "loop-entry":
             # length out-parameter
             lf = [e for e in p.events if e[0] == "store-lf"]
@@ -356,22 +391,51 @@ def check_cipher(ck, mod, f, label, rulemap):
         in_cur = A[in_name]
     if out_cur is None:
         out_cur = A[out_name]
+    LI[hdr]["in"], LI[hdr]["out"] = in_cur, out_cur
+    # hand-over between consecutive data loops: nothing happens in between and the next loop continues with the same
+    # cursors and the same remaining length
+    for h1, h2 in zip(heads, heads[1:]):
+        tr = [p for p in ps if p.end[0] == "loop-entry" and p.end[1] == h2 and p.blocks and p.blocks[0] == h1]
+        for p in tr:
+            inits = {I.id: p.env.get(("init", I.id)) for I in LI[h2]["ptrs"] + LI[h2]["ints"]}
+            for I in LI[h2]["ptrs"]:
+                if inits[I.id] == Lf.s(LI[h1]["in"]):
+                    LI[h2]["in"] = ("hdp", I.id)
+                if inits[I.id] == Lf.s(LI[h1]["out"]):
+                    LI[h2]["out"] = ("hdp", I.id)
+            okh = LI[h2]["in"] is not None and LI[h2]["out"] is not None and inits[LI[h2]["ints"][0].id] == Lf.s(LI[h1]["rem"]) \
+                and not calls_of(p) and not mode.outs_of(p)
+            c.ob(okh, "ADVANCE", "loop-handover", "the next data loop continues with the same cursors and remaining length; nothing is processed in between",
+                 "between two data loops: cursors %s remaining %s calls %s" % ([repr(v) for k_, v in inits.items()], inits[LI[h2]["ints"][0].id], [e[0] for e in calls_of(p)]))
+            n += 1
+        if LI[h2]["in"] is None or LI[h2]["out"] is None:
+            raise Broken("%s: cursors of the second data loop cannot be related to the first: unrecognised shape" % f.name)
     for p in ps:
         ev = calls_of(p)
         if p.end[0] == "loop-entry":
             continue
         if p.end[0] == "ret" and not any(isinstance(s, tuple) and s[0] == "hd" for s in p.eqs):
             continue
+        h0 = p.blocks[0] if p.blocks else None
+        if h0 not in LI:
+            raise Broken("%s: a path class does not start at a data loop head: unrecognised shape" % f.name)
+        in_cur, out_cur, rem, ints = LI[h0]["in"], LI[h0]["out"], LI[h0]["rem"], LI[h0]["ints"]
+        s_in = static_in and h0 == hdr
+        s_out = static_out and h0 == hdr
         P = [e for e in ev if e[0] == "P"]
         if p.end[0] == "backedge":
-            r, name = 4, "block"
-            okg = any(cc[0] == "uge" and cc[2] and cc[1] == Lf({rem: 1, 1: -4}) for cc in p.conds)
-            c.ob(okg, "ADVANCE", "guard", "a full block is processed only when at least 4 bytes remain", "loop guard is not 'remaining >= 4'")
-            bi = p.env.get(("back", in_cur[1])) if not static_in else Lf.s(in_cur)
-            bo = p.env.get(("back", out_cur[1])) if not static_out else Lf.s(out_cur)
+            if p.end[1] != h0:
+                raise Broken("%s: nested data loops: unrecognised shape" % f.name)
+            bi = p.env.get(("back", in_cur[1])) if not s_in else Lf.s(in_cur)
+            bo = p.env.get(("back", out_cur[1])) if not s_out else Lf.s(out_cur)
             bn = p.env.get(("back", ints[0].id))
-            c.ob(bi == Lf({in_cur: 1, 1: 4}) and bo == Lf({out_cur: 1, 1: 4}) and bn == Lf({rem: 1, 1: -4}), "ADVANCE", "advance",
-                 "both cursors += 4 and remaining -= 4 per block", "after a block: input cursor %s, output cursor %s, remaining %s (lock-step broken)" % (bi, bo, bn))
+            adv = bn.add(Lf.s(rem), -1).const() if bn is not None and not is_word(bn) else None
+            r = -adv if adv is not None and adv < 0 and (-adv) % 4 == 0 and -adv <= 256 else 4
+            name = "block" if r == 4 and len(heads) == 1 else "block%d" % r
+            okg = any(cc[0] == "uge" and cc[2] and cc[1] == Lf({rem: 1, 1: -r}) for cc in p.conds)
+            c.ob(okg, "ADVANCE", "guard" if name == "block" else "guard(%s)" % name, "%d bytes are processed only when at least %d remain" % (r, r), "loop guard is not 'remaining >= %d'" % r)
+            c.ob(bi == Lf({in_cur: 1, 1: r}) and bo == Lf({out_cur: 1, 1: r}) and bn == Lf({rem: 1, 1: -r}), "ADVANCE", "advance" if name == "block" else "advance(%s)" % name,
+                 "both cursors += %d and remaining -= %d per iteration" % (r, r), "after an iteration: input cursor %s, output cursor %s, remaining %s (lock-step broken)" % (bi, bo, bn))
             n += 2
         else:
             r = pathname(p)
@@ -379,7 +443,7 @@ def check_cipher(ck, mod, f, label, rulemap):
                 c.ob(False, "ADVANCE", "residue", "", "a path leaves the loop with the remaining length not determined to be 0..3")
                 continue
             name = "tail%d" % r
-        seen.add(r)
+        seen.add(r if p.end[0] != "backedge" else ("iter", h0))
         outs = mode.outs_of(p)
         # a store that writes back the value the location already holds (x ^= 0 ...) changes nothing the round trip or the
         # construction can observe; that it is a write at all (const input buffer) is C06's R-C06-CONST
@@ -396,30 +460,41 @@ def check_cipher(ck, mod, f, label, rulemap):
             Safter = S
             n += 1
         else:
-            c.ob(len(segP) == 1, "MODE", "%s-one-permutation" % name, "one permutation per %s" % name, "%d permutations in the %s" % (len(segP), name))
-            if len(segP) != 1:
+            steps = word_steps(r)
+            c.ob(len(segP) == len(steps), "MODE", "%s-one-permutation" % name, "one permutation per 4-byte word of the %s (%d)" % (name, len(steps)),
+                 "%d permutation(s) in the %s where %d are specified" % (len(segP), name, len(steps)))
+            if len(segP) != len(steps):
                 continue
-            e = segP[0]
-            got_in = [list(w) for w in e[3]]
-            want_in = mode.fb(S, dom_msg)
-            c.ob(e[2] == KR[klen] and e[6] == names["perm"], "MODE", "%s-rounds" % name, "message permutation runs %d rounds" % KR[klen],
-                 "message permutation is %s with %s rounds, specification says %d" % (e[6], e[2], KR[klen]), where=relpath(f.insts[e[5]].where))
-            c.ob(mode.words_eq(got_in, want_in), "MODE", "%s-frame" % name, "frame bits 0x%02X in word 1 before the permutation" % dom_msg,
-                 "state entering the message permutation differs: %s" % mode.first_diff(got_in, want_in), where=relpath(f.insts[e[5]].where))
-            Q = mode.Pw(e[1])
-            inb = [mode.inbyte(in_cur, k) for k in range(r)]
-            xin = mode.le_bytes(inb, r)
-            if enc:
-                absorbed = xin
-                outw = gf2.wxor(xin, Q[2])
-            else:
-                outw = mode.mask_r(gf2.wxor(xin, Q[2]), r)
-                absorbed = outw
-            if kind == "aead":
-                Safter = [Q[0], Q[1] if r == 4 else gf2.wxor(Q[1], W(r)), Q[2], gf2.wxor(Q[3], absorbed)]
-            else:
-                Safter = Q
-            final_at = None
+            Scur = S
+            for k_, (off_, nb) in enumerate(steps):
+                e = segP[k_]
+                sfx = "" if len(steps) == 1 else "@%d" % off_
+                got_in = [list(w) for w in e[3]]
+                want_in = mode.fb(Scur, dom_msg)
+                c.ob(e[2] == KR[klen] and e[6] == names["perm"], "MODE", "%s-rounds%s" % (name, sfx), "message permutation runs %d rounds" % KR[klen],
+                     "message permutation is %s with %s rounds, specification says %d" % (e[6], e[2], KR[klen]), where=relpath(f.insts[e[5]].where))
+                c.ob(mode.words_eq(got_in, want_in), "MODE", "%s-frame%s" % (name, sfx), "frame bits 0x%02X in word 1 before the permutation, on the state left by the previous word" % dom_msg,
+                     "state entering the message permutation differs: %s" % mode.first_diff(got_in, want_in), where=relpath(f.insts[e[5]].where))
+                Q = mode.Pw(e[1])
+                inb = [mode.inbyte(in_cur, off_ + j) for j in range(nb)]
+                xin = mode.le_bytes(inb, nb)
+                if enc:
+                    absorbed = xin
+                    outw = gf2.wxor(xin, Q[2])
+                else:
+                    outw = mode.mask_r(gf2.wxor(xin, Q[2]), nb)
+                    absorbed = outw
+                if kind == "aead":
+                    Scur = [Q[0], Q[1] if nb == 4 else gf2.wxor(Q[1], W(nb)), Q[2], gf2.wxor(Q[3], absorbed)]
+                else:
+                    Scur = Q
+                for j in range(nb):
+                    got = outs.get((out_cur, off_ + j))
+                    want = outw[8 * j: 8 * j + 8]
+                    c.ob(got == want, "MODE", "%s-out%d" % (name, off_ + j), "output byte %d = input byte %d xor keystream byte %d" % (off_ + j, off_ + j, off_ + j),
+                         "output byte %d of the %s is %s, specification says %s" % (off_ + j, name, gf2.describe(got[0]) if got else "not written", gf2.describe(want[0])))
+                n += 2 + nb
+            Safter = Scur
             # state right after the segment: at the next call event, else at path end
             nxt = [x for x in ev if x[0] in ("GENTAG",) and kind == "aead"]
             if nxt:
@@ -430,14 +505,9 @@ def check_cipher(ck, mod, f, label, rulemap):
                 got_state = None
             if got_state is not None:
                 c.ob(mode.words_eq(got_state, Safter), "MODE", "%s-state" % name,
-                     ("plaintext word absorbed into word 3%s" % ("" if r == 4 else ", length %d injected into word 1" % r)) if kind == "aead" else "second pass does not absorb: state = permutation output",
+                     ("plaintext word absorbed into word 3%s" % ("" if r >= 4 else ", length %d injected into word 1" % r)) if kind == "aead" else "second pass does not absorb: state = permutation output",
                      "state after the %s differs from the specification: %s" % (name, mode.first_diff(got_state, Safter)))
                 n += 1
-            for j in range(r):
-                got = outs.get((out_cur, j))
-                want = outw[8 * j: 8 * j + 8]
-                c.ob(got == want, "MODE", "%s-out%d" % (name, j), "output byte %d = input byte %d xor keystream byte %d" % (j, j, j),
-                     "output byte %d of the %s is %s, specification says %s" % (j, name, gf2.describe(got[0]) if got else "not written", gf2.describe(want[0])))
             okal, badj = mode.alias_order_ok(p, in_cur, out_cur)
             c.ob(okal, "INPLACE", "%s-load-before-store" % name, "every input byte is loaded before the output byte at the same offset is stored (c == m is safe)",
                  "input byte %s is loaded after output byte %s was stored: in-place use reads overwritten data" % (badj, badj))
@@ -445,12 +515,12 @@ def check_cipher(ck, mod, f, label, rulemap):
             lim = r if enc else r + 8          # behind the last ciphertext byte the input still holds the 8 tag bytes
             c.ob(ins <= set(range(lim)), "INRANGE", "%s-reads" % name, "reads only input bytes [0,%d) at the cursor" % lim,
                  "reads input offsets %s with only %d byte(s) of input left" % (sorted(ins), lim))
-            n += 5 + r
+            n += 2
         # ---- suffix (tails only)
         if p.end[0] == "backedge":
             ow = {k[1] for k in outs if k[0] == out_cur}
-            c.ob(ow == set(range(4)) and not [k for k in outs if k[0] not in (out_cur,)], "OUTRANGE", "block-writes", "a block writes exactly output bytes [0,4) at the cursor",
-                 "a block writes %s" % sorted(outs, key=repr)[:8])
+            c.ob(ow == set(range(r)) and not [k for k in outs if k[0] not in (out_cur,)], "OUTRANGE", "%s-writes" % name, "an iteration writes exactly output bytes [0,%d) at the cursor" % r,
+                 "an iteration writes %s" % sorted(outs, key=repr)[:8])
             kw_now = mode.state_obj_words(ex, p, st, nk, 16)
             n += 1
             continue
@@ -496,7 +566,8 @@ def check_cipher(ck, mod, f, label, rulemap):
             n += 2
         c.ob(not problems(p), "RT", "%s-clean" % name, "no unknown access", "unexpected accesses: %s" % problems(p)[:2])
         n += 1
-    c.ob(seen == {0, 1, 2, 3, 4}, "ADVANCE", "classes", "all residues 0..3 and the full block are handled", "path classes found: %s" % sorted(seen))
+    c.ob(seen == {0, 1, 2, 3} | {("iter", h_) for h_ in heads}, "ADVANCE", "classes", "all residues 0..3 and the generic iteration of every data loop are handled",
+         "path classes found: %s" % sorted(seen, key=repr))
     return n + 1
 
 
